@@ -83,6 +83,10 @@ SURF_FUNCS = {
     "vertex_normals": ("vertices", "normals", 3, False, (("faces", "normals"),)),
     "angle_defects": ("vertices", "angleDefect", 1, True, (("face_corners", "angles"),)),
     "degree": ("vertices", "degree", 1, False, ()),
+    "triangle_aspect_ratio": ("faces", "aspect_ratio", 1, False, ()),
+    "face_near_border": ("faces", "near_border", 1, False, ()),
+    "border_normals": ("vertices", "borderNormals", 3, False, ()),
+    "parallel_transport_curvature": ("faces", "curvature", 1, True, ()),
 }
 VOL_FUNCS = {
     "edge_length": ("edges", "length", 1, False, ()),
@@ -93,6 +97,7 @@ VOL_FUNCS = {
     "degree": ("vertices", "degree", 1, False, ()),
     "cell_volume": ("cells", "volume", 1, False, ()),
     "cell_barycenter": ("cells", "barycenter", 3, False, ()),
+    "cell_faces_on_boundary": ("cells", "boundary", 1, False, ()),
 }
 # how a quantity transforms: ("scalar", power of the scale factor) | "point" | "unit"
 KIND = {
@@ -100,7 +105,29 @@ KIND = {
     "face_barycenter": "point", "face_circumcenter": "point", "corner_angles": ("scalar", 0), "cotangent": ("scalar", 0),
     "cotan_weights": ("scalar", 0), "vertex_normals": "unit", "angle_defects": ("scalar", 0), "degree": ("scalar", 0),
     "cell_volume": ("scalar", 3), "cell_barycenter": "point",
+    "triangle_aspect_ratio": ("scalar", 0), "face_near_border": ("scalar", 0), "border_normals": "unit",
+    "parallel_transport_curvature": ("scalar", 0), "cell_faces_on_boundary": ("scalar", 0),
 }
+EXACT = ("degree", "face_near_border", "cell_faces_on_boundary")      # integer / boolean quantities: compared exactly
+NEAR_DISTS = (None, 1, 3, 6)                                            # None = the default (2)
+
+
+def variants(fn, rng, where):
+    """Option variants of a function that are driven in pass `where` ("sweep" | "history" | "meta")."""
+    if fn == "vertex_normals":
+        out = [{"interpolation": w} for w in ("uniform", "area", "angle")]
+        if where == "sweep":
+            out.append({"interpolation": rng.choice(["uniform", "area", "angle"]), "_custom": True})
+        elif where == "history":
+            out += [{"interpolation": w, "_custom": True} for w in ("uniform", "area", "angle")]  # the caller's normals must win over cached ones
+        return out
+    if fn == "angle_defects":
+        return [{"zero_border": False}, {"zero_border": True}]
+    if fn == "face_near_border":
+        return [({} if d is None else {"dist": d}) for d in NEAR_DISTS]
+    if fn == "parallel_transport_curvature":
+        return [{"_pt": "scv"}]
+    return [{}]
 NICE_FACTORS = [(2.0, "2"), (0.5, "1/2"), (3.0, "3"), (1 / 3.0, "1/3"), (4.0, "4"), (0.25, "1/4"), (6.0, "6"), (1 / 6.0, "1/6"),
                 (-1.0, "-1"), (8.0, "8"), (0.125, "1/8"), (12.0, "12"), (1 / 12.0, "1/12"), (math.pi, "pi"), (1 / math.pi, "1/pi")]
 # attributes created by the mesh classes' own lazy boundary / adjacency machinery (not by the quantity functions)
@@ -214,6 +241,7 @@ class Env:
         self.FL = None              # faces as stored by the mesh
         self.CN = None              # corner c -> (vertex, face)   (surfaces)
         self.custom_normals = None  # face normals handed to vertex_normals(custom_fnormals=...)
+        self.planar = False         # all vertices in one plane (set by the caller)
         self.ok = False
 
     def fresh(self):
@@ -381,6 +409,10 @@ def fn_key(fn, extras):
         return "vertex_normals:" + extras.get("interpolation", "area") + (":custom_fnormals" if extras.get("_custom") else "")
     if fn == "angle_defects":
         return "angle_defects" + (":zero_border" if extras.get("zero_border") else "")
+    if fn == "face_near_border":
+        return "face_near_border:dist=%s" % extras.get("dist", "default")
+    if fn == "parallel_transport_curvature":
+        return "parallel_transport_curvature:" + extras.get("_pt", "scv")
     return fn
 
 
@@ -402,16 +434,35 @@ def call_quantity(ctx, env, fn, spec, persistent, dense, name, extras, mesh=None
         if not ok:
             return None
         kwargs["custom_fnormals"] = cattr
+    pargs = ()
+    pt = kwargs.pop("_pt", None)
+    if pt is not None:
+        # the parallel transport is an input of the function: built first (it stores its own normals / angles on the mesh)
+        def mkpt():
+            from mouette.processing.connection import SurfaceConnectionVertices, FlatConnectionVertices
+            return SurfaceConnectionVertices(m) if pt == "scv" else FlatConnectionVertices(m)
+        ok, PT = ctx.call("make_connection:" + pt, mkpt, expect=(Exception,), abort=False)
+        if not ok:
+            ctx.note("connection_not_built(%s):%s" % (pt, type(PT).__name__))   # C18's business, not a per-element quantity
+            return None
+        pargs = (PT,)
     before = snapshot(m)
     kwargs["persistent"] = persistent
     kwargs["dense"] = dense
     if name is not None:
         kwargs["name"] = name
     f = getattr(M.attributes, fn)
-    ok, attr = ctx.call(fn, f, m, abort=False, **kwargs)
+    ok, attr = ctx.call(fn, f, m, *pargs, abort=False, **kwargs)
     if not ok:
         return None
     n = env.count(container)
+    if attr is None and persistent:
+        # documented to return the attribute: report, then still judge the values it left on the mesh
+        ctx.violation("call", fn, "returns_no_attribute", "%s returned None instead of the attribute it documents" % fn)
+        aname0 = name if name is not None else dflt
+        ok0, attr = ctx.call(fn, lambda: getattr(m, container).get_attribute(aname0), abort=False)
+        if not ok0:
+            return None
     arr = read_values(ctx, fn, attr, n, dim)
     if not check_left:
         return arr
@@ -550,6 +601,37 @@ def judge_surface(ctx, monitor, fn, extras, arr, R, env):
                 ctx.violation(monitor, op, "wrong_on_interior_vertices_only", "angle defects are right on the border and wrong at interior vertices")
     elif fn == "degree":
         compare(ctx, monitor, op, arr, R.degree.astype(float), 0.0, what="number of adjacent vertices")
+    elif fn == "triangle_aspect_ratio":
+        exp = R.aspect_ratios()
+        compare(ctx, monitor, op, arr, exp, REL * 10 * K * K * np.abs(exp), what="abc/(8(s-a)(s-b)(s-c)) on triangles, -1 on other faces")
+    elif fn == "face_near_border":
+        d = extras.get("dist", 2)
+        compare(ctx, monitor, op, arr, R.near_border(d), 0.0, what="faces at dual distance < %d from a face with a border edge" % d)
+    elif fn == "border_normals":
+        # the docstring only promises "the normal direction of the boundary curve" per vertex: judged = a direction (unit length) exists on
+        # every border vertex and nothing is written on interior vertices; the direction itself is judged by the rigid / scale passes
+        isb = np.array([v in R.border_vertices for v in range(R.nV)])
+        nrm = np.linalg.norm(arr, axis=1)
+        if isb.any():
+            compare(ctx, monitor, op, nrm[isb], np.ones(int(isb.sum())), REL * 10, what="unit length on border vertices")
+        if (~isb).any():
+            ctx.obs(monitor, op, int((~isb).sum()))
+            if np.any(nrm[~isb] != 0):
+                _failed(ctx).add((monitor, op))
+                ctx.violation(monitor, op, "nonzero_on_interior_vertex", "border_normals wrote a vector on a vertex that is not on the border",
+                              vertex=int(np.argmax((nrm != 0) & ~isb)))
+    elif fn == "parallel_transport_curvature":
+        # holonomy of the transport around each triangle: judged only where it is unambiguous - a planar mesh has none
+        # (canonical flat connection: every face; vertex connection: faces whose three vertices are interior, total angle 2 pi)
+        if not getattr(env, "planar", False):
+            ctx.note("parallel_transport_curvature_values_not_judged(non_planar_mesh)")
+            return
+        if extras.get("_pt") == "flat":
+            jd = np.ones(R.nF, bool)
+        else:
+            jd = np.array([all(v not in R.border_vertices for v in f) for f in R.F])
+        wrapped = np.abs(np.angle(np.exp(1j * arr)))
+        compare(ctx, monitor, op, wrapped, np.zeros(R.nF), REL * 100, judged=jd, what="no curvature on a planar mesh")
 
 
 def judge_circumcentres(ctx, monitor, op, arr, tris, maxabs, K):
@@ -613,6 +695,8 @@ def judge_volume(ctx, monitor, fn, extras, arr, R, env):
         compare(ctx, monitor, op, arr, R.volume, REL * R.cdiam ** 3 + REL * R.volume, what="|det|/6")
     elif fn == "cell_barycenter":
         compare(ctx, monitor, op, arr, R.cbary, REL * (R.maxabs + R.lmax), what="mean of the cell's vertices")
+    elif fn == "cell_faces_on_boundary":
+        compare(ctx, monitor, op, arr, R.cell_border_faces.astype(float), 0.0, what="number of faces of the cell that belong to no other cell")
 
 
 # ----------------------------------------------------------------------------------------------- passes
@@ -623,13 +707,7 @@ def option_sweep(ctx, env, R, funcs, rng, judge):
     for fn, spec in funcs.items():
         if spec[3] and not tri:
             continue
-        extras_list = [{}]
-        if fn == "vertex_normals":
-            extras_list = [{"interpolation": w} for w in ("uniform", "area", "angle")]
-            extras_list.append({"interpolation": rng.choice(["uniform", "area", "angle"]), "_custom": True})
-        elif fn == "angle_defects":
-            extras_list = [{"zero_border": False}, {"zero_border": True}]
-        for extras in extras_list:
+        for extras in variants(fn, rng, "sweep"):
             key = fn_key(fn, extras)
             first = None
             for persistent in (True, False):
@@ -880,14 +958,7 @@ def history_pass(ctx, env, R, funcs, rng, judge):
     for fn, spec in funcs.items():
         if spec[3] and not tri:
             continue
-        if fn == "vertex_normals":
-            for w in ("uniform", "area", "angle"):
-                todo.append((fn, {"interpolation": w}))
-                todo.append((fn, {"interpolation": w, "_custom": True}))   # the caller's normals must win over any cached face "normals"
-        elif fn == "angle_defects":
-            todo += [(fn, {"zero_border": False}), (fn, {"zero_border": True})]
-        else:
-            todo.append((fn, {}))
+        todo += [(fn, ex) for ex in variants(fn, rng, "history")]
     todo = todo + rng.sample(todo, min(4, len(todo)))
     rng.shuffle(todo)
     order = []
@@ -965,12 +1036,7 @@ def metamorphic(ctx, monitor, env, envB, funcs, R, base, rng, maps, Q, t, s, tol
     for fn, spec in funcs.items():
         if spec[3] and not tri:
             continue
-        extras_list = [{}]
-        if fn == "vertex_normals":
-            extras_list = [{"interpolation": w} for w in ("uniform", "area", "angle")]
-        elif fn == "angle_defects":
-            extras_list = [{"zero_border": False}, {"zero_border": True}]
-        for extras in extras_list:
+        for extras in variants(fn, rng, "meta"):
             key = fn_key(fn, extras)
             a = base.get(key)
             if a is None:
@@ -1010,8 +1076,15 @@ def metamorphic(ctx, monitor, env, envB, funcs, R, base, rng, maps, Q, t, s, tol
                 exp = (s ** p) * a
                 if fn in ("cotangent", "cotan_weights"):
                     tol = tolm * (1 + exp ** 2) * 20
+                elif fn == "parallel_transport_curvature":
+                    # an angle in (-pi, pi]: compared on the circle
+                    bb = np.angle(np.exp(1j * (bb - exp)))
+                    exp = np.zeros(len(bb))
+                    tol = tolm * 100
+                elif fn == "triangle_aspect_ratio":
+                    tol = tolm * (1 + np.abs(exp)) * 100
                 elif p == 0:
-                    tol = tolm * (1 + np.abs(exp)) * 10 if fn != "degree" else 0.0
+                    tol = tolm * (1 + np.abs(exp)) * 10 if fn not in EXACT else 0.0
                 else:
                     tol = tolm * np.abs(exp) * 10
                 what = "scalar times scale^%d" % p
